@@ -1060,7 +1060,7 @@ func FunctionMap() map[string]physical.FunctionDetails {
 					},
 					Strict: true,
 					Function: func(values []octosql.Value) (octosql.Value, error) {
-						if values[1].Int >= int64(len(values[0].List)) {
+						if values[1].Int < 0 || values[1].Int >= int64(len(values[0].List)) {
 							return octosql.NewNull(), nil
 						}
 						return values[0].List[values[1].Int], nil
